@@ -108,6 +108,8 @@ struct Pipe {
     read_waiter: Option<Waiter>,
     write_waiter: Option<Waiter>,
     last_deliver_at: u64,
+    /// deadline of the one arrival timer registered for this pipe (None: none pending)
+    timer_deadline: Option<u64>,
     pub total_written: u64,
     pub total_read: u64,
 }
@@ -123,6 +125,7 @@ impl Pipe {
             read_waiter: None,
             write_waiter: None,
             last_deliver_at: 0,
+            timer_deadline: None,
             total_written: 0,
             total_read: 0,
         }
@@ -147,7 +150,11 @@ struct ArrivalWake {
 
 impl Wake for ArrivalWake {
     fn wake(self: Arc<Self>) {
-        let w = lock(&self.conn.pipes[self.dir]).read_waiter.take();
+        let w = {
+            let mut p = lock(&self.conn.pipes[self.dir]);
+            p.timer_deadline = None;
+            p.read_waiter.take()
+        };
         if let Some(w) = w {
             w.wake();
         }
@@ -252,12 +259,18 @@ impl Endpoint {
             return Poll::Ready(Ok(n));
         }
         if let Some((t, _)) = p.segs.front() {
-            // data in flight: wake up when it arrives
+            // data in flight: wake up when it arrives (one timer per pipe at a time)
             let t = *t;
             p.read_waiter = Some(waiter());
+            let need = !matches!(p.timer_deadline, Some(d) if d <= t);
+            if need {
+                p.timer_deadline = Some(t);
+            }
             drop(p);
-            let aw = Arc::new(ArrivalWake { conn: self.conn.clone(), dir: self.in_dir() });
-            sim.add_timer(t, TimerTarget::Waker(Waker::from(aw)));
+            if need {
+                let aw = Arc::new(ArrivalWake { conn: self.conn.clone(), dir: self.in_dir() });
+                sim.add_timer(t, TimerTarget::Waker(Waker::from(aw)));
+            }
             return Poll::Pending;
         }
         if p.write_closed {
@@ -313,10 +326,18 @@ impl Endpoint {
                 w.wake();
             }
         } else {
+            // a reader that is already waiting needs a timer for the first segment in flight
+            let front = p.segs.front().map(|(t, _)| *t).unwrap_or(at);
+            let need = p.read_waiter.is_some() && !matches!(p.timer_deadline, Some(d) if d <= front);
+            if need {
+                p.timer_deadline = Some(front);
+            }
             drop(p);
             sim.note_progress();
-            let aw = Arc::new(ArrivalWake { conn: self.conn.clone(), dir: self.out_dir() });
-            sim.add_timer(at, TimerTarget::Waker(Waker::from(aw)));
+            if need {
+                let aw = Arc::new(ArrivalWake { conn: self.conn.clone(), dir: self.out_dir() });
+                sim.add_timer(front, TimerTarget::Waker(Waker::from(aw)));
+            }
             count(sim, "delayed_segment");
         }
         Poll::Ready(Ok(n))
